@@ -179,11 +179,11 @@ def schemas(d, max_leaves=8, kwfun=keyword_strategies):
     return st.recursive(base, level, max_leaves=max_leaves)
 
 
-WIDE_SCALARS = [10, 11, 12, 13, 14, 15, 16, 17, 18, 19, 20, "s0", "s1", "s2", "s3", "s4", "s5", "s6", "s7", None, 2.5, True]
+WIDE_SCALARS = list(range(10, 40)) + ["s%d" % i for i in range(20)] + [None, 2.5, True, 0.5, -7, "", 1e3, False]
 WIDE_LEAVES = [{"type": "integer"}, {"type": "string"}, {"minimum": 3}, {"maxLength": 2}, {"enum": [1, "a"]}, {}]
 
 
-def widen(s, pick):
+def widen(s, pick, d=7):
     """One keyword of a generated root schema grown well beyond the sizes the grammar draws (lists of 3): code
     paths that only start above some length -- a lookup table for long enums, a set for many required names --
     are otherwise never entered.  `pick` is a drawn integer; deterministic given (s, pick)."""
@@ -197,13 +197,14 @@ def widen(s, pick):
     k = cands[pick % len(cands)]
     s = dict(s)
     v = s[k]
-    n = 9 + pick % 14
+    n = 9 + pick % 14 if pick % 3 else 33 + pick % 20           # a third of them beyond 32
     if k == "enum":
         s[k] = list(v) + [e for e in WIDE_SCALARS if not any(e == o and type(e) is type(o) for o in v)][:n]
     elif k == "required" and isinstance(v, list):
         s[k] = list(v) + ["w%d" % i for i in range(n) if "w%d" % i not in v]
     elif k in ("properties", "patternProperties") and isinstance(v, dict):
-        extra = dict((("w%d" % i) if k == "properties" else ("^w%d$" % i), WIDE_LEAVES[(i + pick) % len(WIDE_LEAVES)]) for i in range(n))
+        leaves = WIDE_LEAVES + ([{"required": True}, {"required": True, "type": "integer"}] if d == 3 and k == "properties" else [])
+        extra = dict((("w%d" % i) if k == "properties" else ("^w%d$" % i), leaves[(i + pick) % len(leaves)]) for i in range(n))
         s[k] = dict(list(v.items()) + [(a, b) for a, b in extra.items() if a not in v])
     elif k == "dependencies" and isinstance(v, dict):
         s[k] = dict(list(v.items()) + [("w%d" % i, ["w%d" % (i + 1)]) for i in range(n) if "w%d" % i not in v])
@@ -222,7 +223,7 @@ def root_schemas(d, max_leaves=8, kwfun=keyword_strategies):
     sub = schemas(d, max_leaves, kwfun)
     plain = st.one_of(schema_object(d, sub, kwfun), schema_object(d, sub, kwfun), sub)
     return st.one_of(plain, plain, plain, plain, plain,
-                     st.tuples(plain, st.integers(0, 1000)).map(lambda t: widen(t[0], t[1])))
+                     st.tuples(plain, st.integers(0, 1000)).map(lambda t: widen(t[0], t[1], d)))
 
 
 # ---- liberal flavour (C03 / C11) ----------------------------------------------------------
